@@ -132,6 +132,7 @@ class StaleStateHistories:
             K.ensure_eq(tag, y, K.val(want), text=Q9)
 
         fresh_state = True  # disp() is only constrained right after a replacing / resetting operation
+        edited_in_place = False  # parameters edited in place (or re-conditioned) since the buffers were last computed
         for i, op in enumerate(case["history"]):
             tag = f"{i}:{op}"
             if op == "data_":
@@ -149,6 +150,7 @@ class StaleStateHistories:
                         K.call(p.mul_, K.tensor(c), modifies=[p])
                 ghost["params"] = np.frompyfunc(lambda v: E.mul(v, c), 1, 1)(ghost["params"])
                 fresh_state = False
+                edited_in_place = True
             elif op == "reset":
                 if kind == "callable":
                     r = K.call(t.reset_parameters, modifies=_state_tensors(t))
@@ -160,10 +162,12 @@ class StaleStateHistories:
                 K.ensure_returns(r, text=Q9)
             elif op == "update":
                 K.ensure_returns(K.call(t.update, modifies=_state_tensors(t)), text=Q9)
+                edited_in_place = False
             elif op == "clear":
                 K.ensure_returns(K.call(t.clear_buffers, modifies=_state_tensors(t)), text=Q9)
             elif op == "call":
                 check_call(tag)
+                edited_in_place = False
             elif op == "disp":
                 u = K.call(t.disp, modifies=_state_tensors(t))
                 if K.ensure_returns(u, text=Q9D) and fresh_state and kind != "callable":
@@ -178,7 +182,10 @@ class StaleStateHistories:
                     o = oracle()
                     oi = o.inverse(update_buffers=False)
                     oi.update()
-                    if K.ensure_returns(ui, text=Q9D):
+                    # (an in-place edit cannot invalidate buffers: the statement constrains disp() after replacing /
+                    # resetting operations and the *call* after any history - so only when nothing was edited in place
+                    # since the buffers were computed)
+                    if K.ensure_returns(ui, text=Q9D) and not edited_in_place:
                         K.ensure_eq(tag + ":inverse-disp", ui, K.val(K.call(oi.disp, modifies=_state_tensors(oi))),
                                     text=Q9D + " [disp() of an inverse created with update_buffers=True is the inverse displacement of the current state]")
             elif op == "condition_":
@@ -186,6 +193,7 @@ class StaleStateHistories:
                 ghost["cond"] = c
                 K.ensure_returns(K.call(t.condition_, K.tensor(c), modifies=_state_tensors(t)), text=Q9)
                 fresh_state = False
+                edited_in_place = True
         check_call("final")
 
 
